@@ -54,6 +54,8 @@ type zzChainModel struct {
 	notified   []btcutil.Address
 	// block contents (C16 recovery): height -> transactions
 	txsAt  map[int32][]*wire.MsgTx
+	filterErr error // C16: FilterBlocks fails with this error while set
+	concreteTs bool // C16 batch harness: concrete block timestamps
 	params *chaincfg.Params
 }
 
@@ -61,6 +63,9 @@ type zzChainModel struct {
 // filter pre-check - the real chain.BlockFilterer run over each requested
 // block, stopping at the first block with a match.
 func (c *zzChainModel) FilterBlocks(req *chain.FilterBlocksRequest) (*chain.FilterBlocksResponse, error) {
+	if c.filterErr != nil {
+		return nil, c.filterErr
+	}
 	bf := chain.NewBlockFilterer(c.params, req)
 	for i, blk := range req.Blocks {
 		msg := &wire.MsgBlock{Transactions: c.txsAt[blk.Height]}
@@ -93,6 +98,10 @@ func (c *zzChainModel) ts(height int32, fork int) int64 {
 	k := [2]int32{height, int32(fork)}
 	if t, ok := c.tsOf[k]; ok {
 		return t
+	}
+	if c.concreteTs {
+		// long chains: ten-minute blocks instead of one symbolic instant each
+		return 1600000000 + int64(height)*600
 	}
 	t := int64(verifrt.U32("block-ts"))
 	verifrt.Assume(verifrt.And(t >= 1231006505, t <= 4000000000))
